@@ -45,6 +45,8 @@ def gen_case(rng, tier, avoid):
                 # any other cast (values may change or saturate - the caller's buffer still may not)
                 op['kwargs']['cast_dtype'] = gen.cast_literal(rng, gen.pick(rng, ['int8', 'int16', 'int32', 'uint8', 'uint16', 'uint32',
                                                                                     'float32', 'float64']))
+            if rng.random() < 0.12:
+                rc['masked'] = rng.randrange(1 << 16)      # a masked array: neither the data under the mask nor the mask may change
             if rc['dtype'][1] == 'f' and rng.random() < 0.3:
                 n = rc['shape'][0] * (rc['shape'][1] if len(rc['shape']) > 1 else 1)
                 rc['specials'] = [[rng.randrange(max(n, 1)), rng.choice(['nan', 'nan', 'inf', '-inf', '-0'])]
